@@ -131,3 +131,14 @@ fn c06_rc4_long_stream() {
     kani::cover!(true);
     std::mem::forget(enc);
 }
+
+/// Witness helper for c06_rc4_long_stream (same single `kani::any::<[u8; 6]>()` input): trace
+/// generation for the 262-byte harness exhausts memory, and a wrong keystream is wrong for every
+/// plaintext, so any values serve; they are replayed natively through the real harness, which alone
+/// decides whether a violation is reported.
+#[kani::proof]
+fn c06_rc4_long_witness() {
+    let tail: [u8; 6] = kani::any();
+    assert!(tail[0] != tail[0], "witness helper: always fails, only provides input values");
+    kani::cover!(true);
+}
